@@ -281,6 +281,7 @@ def run(L, rep, tier, seed):
                             'startup_schedule_steps': len(sched), 'max_events_per_worker': me, 'commands': len(enc.cmds),
                             'lock_protected_objects': enc.protected, 'build_s': round(time.time() - t0, 1)}
         report_results(rep, 'C08', name, res, KNOWN, [name, n, ndyn, K])
+    accept_path(L, rep, tier, seed)
     # worker bookkeeping (registrations balanced when a surplus worker retires): the dispatch decision relies on it
     from props import c20
     c20.worker_contract(L, rep, tier, seed, prop='C08')
@@ -309,3 +310,29 @@ def report_results(rep, prop, name, res, known, cfg):
             rep.obligation(full, 'unknown', seconds=round(secs, 1), solver=verdict)
             if not qn.endswith('known-finding-still-present'):
                 rep.inconc('%s: solver returned %s' % (full, verdict))
+
+
+def accept_path(L, rep, tier, seed):
+    """the accept thread sets a connection up (RefinedTcpStream::new, ClientConnection::new) before handing it to the pool: that
+    code must not wait for the client, or one silent connection stalls every later one. The socket model blocks on any read."""
+    from props.connlib import Conv
+    from mirsym.interp import Blocked
+    S = Session(L, rep, seed)
+
+    def h(ctx):
+        ctx.event('witness', 'setup')
+        try:
+            cv = Conv(S, ctx, [], end='block')
+            ok = True
+            why = None
+        except Blocked as b:
+            ok = False
+            why = b.what
+        ctx.check_always(z3.BoolVal(ok), 'connection-setup-does-not-wait-for-the-client', lambda m: {'kind': 'accept-path', 'blocked_at': why})
+        if ok:
+            reads = sum(1 for e in cv.wire.log if e[0] == 'read')
+            ctx.check_always(z3.BoolVal(reads == 0), 'connection-setup-reads-nothing', lambda m: {'kind': 'accept-path', 'reads': reads})
+        return True
+    S.run('accept-path', h, witnesses=['setup'], bound='RefinedTcpStream::new + ClientConnection::new on a connection whose client sends nothing')
+    for (label, sc, st, nm) in S.last_violations[:1]:
+        rep.violation(Violation('C08', None, 'accept-path/%s violated: %s' % (label, sc), sc, 'accept-path/' + label))
